@@ -98,6 +98,7 @@ type Config struct {
 type FieldIdx struct{ Mant, Exp, Prec, Mode, Acc, Form, Neg int }
 
 type Model struct {
+	siteFilter *ssa.BasicBlock // set while rootsOfAt runs (load time only)
 	accessors  map[*ssa.Function]int
 	Cfg        Config
 	Fset       *token.FileSet
@@ -214,6 +215,24 @@ func Load(cfg Config) *Model {
 		notes = append(notes, "positions in reports refer to the source after inlining")
 	}
 	m.NormNotes = notes
+	// what the loader did to the tree as given (not to a control's variant of it) goes into the
+	// evidence next to the shape notes
+	if len(cfg.Overlay) == 0 {
+		blindMu.Lock()
+		for _, n := range append(append([]string{}, m.AliasNotes...), notes...) {
+			msg := "loader: " + n
+			dup := false
+			for _, x := range blindNotes {
+				if x == msg {
+					dup = true
+				}
+			}
+			if !dup {
+				blindNotes = append(blindNotes, msg)
+			}
+		}
+		blindMu.Unlock()
+	}
 	return m
 }
 
@@ -339,18 +358,34 @@ func load1(cfg Config) *Model {
 		return t
 	}
 	m.Decimal = named(m.Dec, "Decimal")
-	m.DecT = named(m.Dec, "dec")
-	m.WordT = named(m.Dec, "Word")
 	m.Context = named(m.Ctx, "Context")
 	st, ok := m.Decimal.Underlying().(*types.Struct)
 	if !ok {
 		Fatal("Decimal is not a struct")
+	}
+	// the mantissa type and the word type are unexported and may be renamed: they are the named
+	// slice type of one of Decimal's fields and its element type
+	for i := 0; i < st.NumFields() && m.DecT == nil; i++ {
+		if n, ok := st.Field(i).Type().(*types.Named); ok {
+			if sl, ok := n.Underlying().(*types.Slice); ok {
+				if w, ok := sl.Elem().(*types.Named); ok {
+					m.DecT, m.WordT = n, w
+				}
+			}
+		}
+	}
+	if m.DecT == nil {
+		m.DecT = named(m.Dec, "dec")
+		m.WordT = named(m.Dec, "Word")
 	}
 	// The seven fields are told apart by their TYPES (all distinct), so that renaming a field
 	// changes nothing here; constructs and messages use the canonical names below.
 	idx := map[string]int{}
 	canon := func(t types.Type) string {
 		if n, ok := t.(*types.Named); ok {
+			if n == m.DecT {
+				return "mant"
+			}
 			switch n.Obj().Name() {
 			case "dec":
 				return "mant"
@@ -502,6 +537,9 @@ func (m *Model) funcName(fn *ssa.Function, aliased bool) string {
 		tn := t.String()
 		if n, ok := t.(*types.Named); ok {
 			tn = n.Obj().Name()
+			if n == m.DecT {
+				tn = "dec" // the mantissa type keeps its construct name whatever it is called
+			}
 		}
 		// the methods of the slice type dec are value-receiver methods on the pinned tree; the
 		// same method with a pointer receiver keeps its construct name
